@@ -163,6 +163,12 @@ fn run_text(r: &Report, section: &str, pi: usize, p: &Parser, input: &[u8], t: &
             t.bad += 1;
             r.viol(section, &format!("{}/{}", p.name, class), case_str(p, input), detail);
         }
+        Ok(Res::Many(v)) => {
+            t.bad += 1;
+            for (class, detail) in v {
+                r.viol(section, &format!("{}/{}", p.name, class), case_str(p, input), detail);
+            }
+        }
         Err(pn) => {
             t.panics += 1;
             let cls = text::panic_class(input);
@@ -528,6 +534,7 @@ fn run_strp(r: &Report, fmt: &[u8], input: &[u8], t: &mut Tally) {
             t.bad += 1;
             r.viol("strptime", &format!("strtime::parse/{}", c), case(), d);
         }
+        Ok(Res::Many(_)) => unreachable!(),
         Err(p) => {
             t.panics += 1;
             let cls = if input.is_empty() { "[empty-input]" } else { "" };
@@ -854,16 +861,32 @@ fn child_main(args: &[String]) -> ! {
     let _ = jiff::tz::db().get("UTC");
     let _ = jiff::tz::db().get("America/New_York");
     let mut o = ChildOut { out: std::io::stdout() };
-    let mut counters: BTreeMap<String, u64> = BTreeMap::new();
-    let mut maxima: BTreeMap<String, f64> = BTreeMap::new();
-    let mut bump = |k: &str, n: u64| *counters.entry(k.to_string()).or_insert(0) += n;
-    let mut peak = |k: &str, v: f64| {
-        let e = maxima.entry(k.to_string()).or_insert(0.0);
+    let counters: std::cell::RefCell<BTreeMap<String, u64>> = Default::default();
+    let maxima: std::cell::RefCell<BTreeMap<String, f64>> = Default::default();
+    let bump = |k: &str, n: u64| *counters.borrow_mut().entry(k.to_string()).or_insert(0) += n;
+    let peak = |k: &str, v: f64| {
+        let mut m = maxima.borrow_mut();
+        let e = m.entry(k.to_string()).or_insert(0.0);
         if v > *e {
             *e = v;
         }
     };
     let mine = |i: usize| i % nshards == shard && (i as i64) > resume;
+    let mut since_flush = 0u32;
+    // engine self-test hooks (never set by the driver): make the worker die or
+    // hang at one case to exercise the attribution path
+    let at = |var: &str| -> Option<usize> { std::env::var(var).ok()?.strip_prefix(&format!("{}:", kind))?.parse().ok() };
+    let (abort_at, hang_at) = (at("C17_SELFTEST_ABORT_AT"), at("C17_SELFTEST_HANG_AT"));
+    let selftest = |i: usize| {
+        if abort_at == Some(i) {
+            std::process::abort();
+        }
+        if hang_at == Some(i) {
+            loop {
+                std::thread::sleep(Duration::from_secs(3600));
+            }
+        }
+    };
     match kind.as_str() {
         "tzif" => {
             let sp = tzif_space(quick);
@@ -871,7 +894,16 @@ fn child_main(args: &[String]) -> ! {
                 if !mine(i) {
                     continue;
                 }
+                since_flush += 1;
+                if since_flush >= 500 {
+                    // counters travel as deltas so that little is lost if the
+                    // process dies later
+                    o.line("C", json!({"counters": *counters.borrow(), "maxima": *maxima.borrow()}));
+                    counters.borrow_mut().clear();
+                    since_flush = 0;
+                }
                 o.line("S", json!(i));
+                selftest(i);
                 let bytes = sp.bytes(i);
                 let a0 = allocated();
                 let t0 = Instant::now();
@@ -896,8 +928,11 @@ fn child_main(args: &[String]) -> ! {
                         let t1 = Instant::now();
                         match guard(|| battery::battery(&tz, &raw, true)) {
                             Err(p) => o.viol(&format!("TimeZone::tzif->lookup/{}", panic_sig(&p)), &sp.describe(i), &p),
-                            Ok(Some((cls, d))) => o.viol(&format!("TimeZone::tzif->{}", cls), &sp.describe(i), &d),
-                            Ok(None) => {}
+                            Ok(v) => {
+                                for (cls, d) in v {
+                                    o.viol(&format!("TimeZone::tzif->{}", cls), &sp.describe(i), &d);
+                                }
+                            }
                         }
                         let bt = t1.elapsed().as_secs_f64();
                         peak("tzif:max_battery_seconds", bt);
@@ -918,7 +953,16 @@ fn child_main(args: &[String]) -> ! {
                 if !mine(i) {
                     continue;
                 }
+                since_flush += 1;
+                if since_flush >= 500 {
+                    // counters travel as deltas so that little is lost if the
+                    // process dies later
+                    o.line("C", json!({"counters": *counters.borrow(), "maxima": *maxima.borrow()}));
+                    counters.borrow_mut().clear();
+                    since_flush = 0;
+                }
                 o.line("S", json!(i));
+                selftest(i);
                 let bytes = tzmut::concat_apply(&base, m);
                 std::fs::write(&path, &bytes).expect("write concat file");
                 let desc = tzmut::concat_describe(m);
@@ -948,8 +992,11 @@ fn child_main(args: &[String]) -> ! {
                             bump("concat:get_ok", 1);
                             match guard(|| battery::battery(&tz, &[], false)) {
                                 Err(p) => o.viol(&format!("concatenated TimeZoneDatabase::get->lookup/{}", panic_sig(&p)), &desc, &p),
-                                Ok(Some((cls, d))) => o.viol(&format!("concatenated TimeZoneDatabase::get->{}", cls), &desc, &d),
-                                Ok(None) => {}
+                                Ok(v) => {
+                                    for (cls, d) in v {
+                                        o.viol(&format!("concatenated TimeZoneDatabase::get->{}", cls), &desc, &d);
+                                    }
+                                }
                             }
                         }
                     }
@@ -969,7 +1016,16 @@ fn child_main(args: &[String]) -> ! {
                 if !mine(i) {
                     continue;
                 }
+                since_flush += 1;
+                if since_flush >= 500 {
+                    // counters travel as deltas so that little is lost if the
+                    // process dies later
+                    o.line("C", json!({"counters": *counters.borrow(), "maxima": *maxima.borrow()}));
+                    counters.borrow_mut().clear();
+                    since_flush = 0;
+                }
                 o.line("S", json!(i));
+                selftest(i);
                 let bytes = blow_bytes(&ps, b);
                 let pi = match b {
                     Blow::Digits { pi, .. } | Blow::Unit { pi, .. } => *pi,
@@ -1001,6 +1057,12 @@ fn child_main(args: &[String]) -> ! {
                         bump("blowup:ok", 1);
                         o.viol(&format!("{}/{}", p.name, c), &desc, &d);
                     }
+                    Ok(Res::Many(v)) => {
+                        bump("blowup:ok", 1);
+                        for (c, d) in v {
+                            o.viol(&format!("{}/{}", p.name, c), &desc, &d);
+                        }
+                    }
                 }
             }
         }
@@ -1009,7 +1071,7 @@ fn child_main(args: &[String]) -> ! {
             std::process::exit(2);
         }
     }
-    o.line("C", json!({"counters": counters, "maxima": maxima}));
+    o.line("C", json!({"counters": *counters.borrow(), "maxima": *maxima.borrow()}));
     o.line("E", json!(null));
     std::process::exit(0);
 }
@@ -1025,6 +1087,7 @@ fn run_children(r: &Report, section: &str, kind: &str, op: &str, describe: &(dyn
     let exe = std::env::current_exe().expect("current_exe");
     let nshards = std::thread::available_parallelism().map(|n| n.get()).unwrap_or(8).clamp(2, 16);
     let tier = if r.quick() { "quick" } else { "thorough" };
+    let idle_limit: u64 = std::env::var("C17_WORKER_TIMEOUT_S").ok().and_then(|x| x.parse().ok()).unwrap_or(120);
     (0..nshards).into_par_iter().for_each(|shard| {
         let mut resume: i64 = -1;
         let mut restarts = 0;
@@ -1054,11 +1117,14 @@ fn run_children(r: &Report, section: &str, kind: &str, op: &str, describe: &(dyn
             let mut cur: Option<usize> = None;
             let mut done = false;
             loop {
-                match rx.recv_timeout(Duration::from_secs(120)) {
+                match rx.recv_timeout(Duration::from_secs(idle_limit)) {
                     Ok(Msg::Line(l)) => {
                         let (tag, rest) = l.split_once(' ').unwrap_or((&l, ""));
                         match tag {
-                            "S" => cur = rest.parse().ok(),
+                            "S" => {
+                                cur = rest.parse().ok();
+                                r.count(&format!("{}:started", kind), 1);
+                            }
                             "V" => {
                                 if let Ok(v) = serde_json::from_str::<serde_json::Value>(rest) {
                                     r.viol(section, v["sig"].as_str().unwrap_or("?"), v["case"].as_str().unwrap_or("?"), v["detail"].as_str().unwrap_or("?"));
@@ -1093,9 +1159,10 @@ fn run_children(r: &Report, section: &str, kind: &str, op: &str, describe: &(dyn
                         let _ = child.kill();
                         let _ = child.wait();
                         let _ = reader.join();
+                        let _ = std::fs::remove_dir_all(format!("/verif/.build/c17-work-{}", child.id()));
                         match cur {
                             Some(i) => {
-                                r.viol(section, &format!("{}/no-termination(>120s)", op), describe(i), "worker made no progress for 120 s and was killed");
+                                r.viol(section, &format!("{}/no-termination(>{}s)", op, idle_limit), describe(i), format!("worker made no progress for {} s and was killed", idle_limit));
                                 resume = i as i64;
                                 restarts += 1;
                                 if restarts > 50 {
@@ -1114,6 +1181,7 @@ fn run_children(r: &Report, section: &str, kind: &str, op: &str, describe: &(dyn
             }
             let status = child.wait().expect("wait worker");
             let _ = reader.join();
+            let _ = std::fs::remove_dir_all(format!("/verif/.build/c17-work-{}", child.id()));
             if done && status.success() {
                 break;
             }
@@ -1172,7 +1240,7 @@ fn main() {
         r.add_states(r.get_count("blowup:cases"));
         r.add_transitions(r.get_count("blowup:cases"));
         r.add_validated(r.get_count("blowup:ok"));
-        r.require(r.get_count("blowup:cases") == sp.len() as u64 || r.n_viol_sigs() > 0, "every blow-up input was processed");
+        r.require(r.get_count("blowup:started") == sp.len() as u64 || r.n_viol_sigs() > 0, "every blow-up input was processed");
     });
     r.section("tzif", || {
         let sp = tzif_space(r.quick());
@@ -1182,7 +1250,7 @@ fn main() {
         r.add_states(r.get_count("tzif:cases"));
         r.add_transitions(r.get_count("tzif:cases"));
         r.add_validated(r.get_count("tzif:accepted"));
-        r.require(r.get_count("tzif:cases") == sp.len() as u64 || r.n_viol_sigs() > 0, "every TZif case was processed");
+        r.require(r.get_count("tzif:started") == sp.len() as u64 || r.n_viol_sigs() > 0, "every TZif case was processed");
         r.require(r.get_count("tzif:accepted") > 0 && r.get_count("tzif:rejected") > 0, "TZif mutations both accepted and rejected");
         r.sample(json!({"section": "tzif", "seeds": sp.seeds.iter().map(|s| format!("{} ({} bytes)", s.name, s.bytes.len())).collect::<Vec<_>>()}));
     });
@@ -1194,7 +1262,7 @@ fn main() {
         r.add_states(r.get_count("concat:cases"));
         r.add_transitions(r.get_count("concat:cases"));
         r.add_validated(r.get_count("concat:get_ok"));
-        r.require(r.get_count("concat:cases") == muts.len() as u64 || r.n_viol_sigs() > 0, "every concatenated-tzdata case was processed");
+        r.require(r.get_count("concat:started") == muts.len() as u64 || r.n_viol_sigs() > 0, "every concatenated-tzdata case was processed");
         r.require(r.get_count("concat:get_ok") > 0 && r.get_count("concat:rejected") > 0, "concatenated files both usable and rejected");
     });
     for (k, v) in maxima.lock().unwrap().iter() {
